@@ -41,8 +41,7 @@ TickTarget(s, class) ==
 \* durations after it (the invariant proved for all parameters in apalache/Ap_Epochs.tla)
 ClockChecks(s) ==
   << <<"C20.start=genesis+elapsed-epochs*duration",
-        IF s.kind = "manager" THEN s.first \preceq s.id /\ s.start = s.genesis ++ ((s.id -- s.first) ** s.dur)
-        ELSE Pristine(s) \/ (One \preceq s.id /\ s.start = s.genesis ++ ((s.id -- One) ** s.dur))>> >>
+        Pristine(s) \/ (s.anchor.id \preceq s.id /\ s.start = s.anchor.start ++ ((s.id -- s.anchor.id) ** s.dur))>> >>
 
 StepChecks(s, t) ==
   << <<"C20.id-moves-by-at-most-one", t.id = s.id \/ t.id = s.id ++ One>>,
